@@ -18,15 +18,18 @@ CONSTANTS MaxLen,      \* maximal number of nodes of a generated expression
           Ints,        \* integer literals
           Pows,        \* exponents of the power node
           Ops,         \* enabled operator nodes
+          Macros,      \* composite leaves: token sequences pushed as one node (e.g. "a b cross"), so that narrow
+                       \* configurations reach deep shapes (both operands of a dot built on the same cross product)
           Assigns      \* tuple of assignments <<vec, dvec, scal, dscal>>
 
 VARIABLES stacks,      \* stacks[i]: the value stack under assignment i
-          prog         \* the program so far (history variable: the behaviours are the test inputs)
+          prog,        \* the program so far (history variable: the behaviours are the test inputs)
+          cost         \* nodes counted against MaxLen (a composite leaf counts once)
 
-vars == <<stacks, prog>>
+vars == <<stacks, prog, cost>>
 NA == Len(Assigns)
 
-Init == stacks = [i \in 1..NA |-> <<>>] /\ prog = <<>>
+Init == stacks = [i \in 1..NA |-> <<>>] /\ prog = <<>> /\ cost = 0
 
 Depth == Len(stacks[1])
 NVec == Cardinality({i \in DOMAIN prog : prog[i][1] = "vec"})
@@ -41,10 +44,21 @@ MinOps(n) == IF "mixed" \in Ops THEN n \div 2 ELSE n - 1
 
 \* a node is applied iff it is well typed and its value is in the exact domain under every assignment
 Apply(tok) ==
-  /\ Len(prog) + 1 + MinOps(Depth + 1 - Arity(tok[1])) <= MaxLen
+  /\ cost + 1 + MinOps(Depth + 1 - Arity(tok[1])) <= MaxLen
+  /\ cost' = cost + 1
   /\ \A i \in 1..NA : Step(Assigns[i], stacks[i], tok) # Bad
   /\ stacks' = [i \in 1..NA |-> Step(Assigns[i], stacks[i], tok)]
   /\ prog' = Append(prog, tok)
+
+\* a composite leaf: a closed sub-expression pushed at once
+VecTokens(m) == Cardinality({i \in DOMAIN m : m[i][1] = "vec"})
+PushMacro == \E m \in Macros :
+  /\ NVec + VecTokens(m) <= MaxVec
+  /\ cost + 1 + MinOps(Depth + 1) <= MaxLen
+  /\ \A i \in 1..NA : RunOn(Assigns[i], stacks[i], m) # Bad
+  /\ stacks' = [i \in 1..NA |-> RunOn(Assigns[i], stacks[i], m)]
+  /\ prog' = prog \o m
+  /\ cost' = cost + 1
 
 PushVec  == \E i \in VecLeaves : NVec < MaxVec /\ (Used(i) \/ Fresh(i)) /\ Apply(<<"vec", i>>)
 PushScal == \E j \in ScalLeaves : Apply(<<"scal", j>>)
@@ -60,7 +74,7 @@ MulS     == "muls" \in Ops /\ Apply(<<"muls", 0>>)
 AddS     == "adds" \in Ops /\ Apply(<<"adds", 0>>)
 PowS     == "pow" \in Ops /\ \E e \in Pows : Apply(<<"pow", e>>)
 
-Next == PushVec \/ PushScal \/ PushInt \/ AddV \/ ScaleV \/ NegV \/ DotP \/ CrossP \/ MixedP
+Next == PushMacro \/ PushVec \/ PushScal \/ PushInt \/ AddV \/ ScaleV \/ NegV \/ DotP \/ CrossP \/ MixedP
         \/ NormS \/ MulS \/ AddS \/ PowS
 
 Spec == Init /\ [][Next]_vars
